@@ -491,6 +491,83 @@ def gen_synth_spec(rng: random.Random, dirty: bool) -> dict[str, Any]:
 		'roots': roots, 'execs': execs}
 
 
+def run_history_case(rng: random.Random, spec: dict[str, Any]) -> tuple[dict[str, Any], list[str], list[str]]:
+	"""One Procedure instance over a random history of on / off / clear_handler / exec calls (Model/ProcedureHistory.lean)."""
+	from rogw.tranp.semantics.procedure import Procedure
+	ids = Ids()
+	ex = Exporter(ids)
+	slot_of: dict[int, int] = {}
+	try:
+		nodes, classes = build_synth(spec)
+		for r in spec['roots']:
+			slot_of[r] = ex.export(nodes[r])
+	except Exception as e:  # noqa: BLE001
+		return ({'calls': 0, 'outcomes': {'export-raised': 1}}, ['reset'], ['real code raised ' + canon_exc(e)])
+	lines = ['reset', *ex.lines]
+	real = ['ok'] * len(lines)
+	proc: Any = Procedure()
+	actions = ['on_fallback', 'on_fallback', 'on_unused', *[f'on_{_classification(c)}' for c in classes]]
+	behs = ['sig', 'sig', 'id', 'strict0', 'raise:' + rng.choice(RAISES), 'sig', 'id', 'raise:' + rng.choice(RAISES)]
+	callbacks = [make_handler(b, ids, proc, {}) for b in behs]
+	outcomes: Counter[str] = Counter()
+	registered: list[tuple[str, int]] = []
+	steps_n = rng.randint(6, 20)
+	for step_i in range(steps_n):
+		k = rng.random()
+		if step_i == 0 and rng.random() < 0.8:
+			k = 0.5  # most instances register something before the first exec
+		if k < 0.4:
+			r = rng.choice(spec['roots'])
+			lines.append(f'exec\t{slot_of[r]}')
+			real.append(real_exec(proc, nodes[r]))
+			outcomes['exec ' + real[-1].split(' | ')[0].split(' ')[0]] += 1
+		elif k < 0.7:
+			a, h = rng.choice(actions), rng.randrange(len(behs))
+			if step_i == 0:
+				a, h = 'on_fallback', 0
+			lines.append(f'h.on\t{hx(a)}\t{h}\t{behs[h]}')
+			try:
+				proc.on(a, callbacks[h])
+				real.append('ok')
+				registered.append((a, h))
+			except Exception as e:  # noqa: BLE001
+				real.append(canon_exc(e))
+			outcomes['on'] += 1
+		elif k < 0.92:
+			a, h = rng.choice(actions), rng.randrange(len(behs))
+			if registered and rng.random() < 0.65:
+				a, h = rng.choice(registered)  # usually something that is (or was) registered
+			lines.append(f'h.off\t{hx(a)}\t{h}')
+			try:
+				proc.off(a, callbacks[h])
+				real.append('ok')
+			except Exception as e:  # noqa: BLE001
+				real.append(canon_exc(e))
+			outcomes['off ' + real[-1]] += 1
+		else:
+			lines.append('h.clear')
+			try:
+				proc.clear_handler()
+				real.append('ok')
+			except Exception as e:  # noqa: BLE001
+				real.append(canon_exc(e))
+			outcomes['clear'] += 1
+	return {'calls': len(lines) - len(ex.lines) - 1, 'outcomes': dict(outcomes)}, lines, real
+
+
+def stream_history(ctx: Ctx) -> Stream:
+	rng = ctx.sub_rng('proc-history')
+	cases = []
+	for i in range(ctx.scale(150, 2500)):
+		try:
+			cases.append(run_history_case(rng, gen_synth_spec(rng, i % 3 == 0)))
+		except Exception as e:  # noqa: BLE001
+			cases.append(({'calls': 0, 'outcomes': {}}, ['reset'], ['real code raised ' + canon_exc(e)]))
+	st = common.correspond('proc-history', cases, 'proc', classify=lambda d: '+'.join(sorted(k.split(':')[0] for k in d['outcomes']))[:80])
+	st.note = 'one real Procedure over random histories of on / off (also unknown action / callback: ValueError) / clear_handler / exec on well- and ill-formed synthetic trees (failing execs leave frames), vs Model/ProcedureHistory.step'
+	return st
+
+
 # ---------------------------------------------------------------------------------------------
 # real trees
 
@@ -1898,6 +1975,10 @@ STATEMENTS = {
 	'wf_necessary': 'GENERAL necessity: for every key-consistent tree with a visited non-WF node there is a handler table (returning handlers + at most one nesting handler, none catching) on which exec differs from the reference, for every budget >= 2 and every initial stacks; so WF is exactly the obligation. WF was weakened to what is necessary: terminals may declare properties that yield empty lists; a repeated key is allowed when its value is an empty list',
 	'failed_run_leaves_frame': 'a failing exec leaves its frame behind (no finally)',
 	'failed_nested_counterexample': 'NOT failed_nested_statement: with a handler that catches a nested failure the outer run is corrupted (witness replayed on the real code)',
+	'exec_result_independent_of_stacks': 'for EVERY tree (WF or not) and every handler table that does not catch nested failures: the result of exec (value or exception) is the same from every stack-of-stacks',
+	'exec_history_independent': 'after ANY history of calls on one instance (on / off incl. failing ones / clear_handler / exec on arbitrary trees, succeeding or raising) exec answers exactly like a fresh instance that has seen only the registrations',
+	'exec_history_reference': '... and on a WF tree that answer is the reference result for the registered handlers',
+	'instance_state_is_modelled': 'GENERATED from procedure.py on every run: the attributes of a Procedure instance and the methods writing them are exactly the model state (stacks: __init__/exec/__result/__run_action/__stack_pop; emitter: __init__/on/off/clear_handler; __verbose constructor only), no class-level state, list lengths re-read from the node at event time, root flattened on every exec; 37 modelled functions (procedure.py, node.py, middleware.py, embed.py) pinned to their audited text — a new attribute / another source / an edited modelled function is a TranslateError (broken tie)',
 	'prop_keys_history_independent(_from)': 'Node.prop_keys over any class table whose MROs have pairwise distinct class names: for every order/repetition of calls each answer is the cache-free MRO computation (invariant: cache subset of the graph of the pure function)',
 	'prop_keys_fixed_key_counterexample': 'NOT prop_keys_fixed_key_statement: with the attribute name not carrying the class name (the seeded mutation) a subclass asked after its base answers with the base\'s list',
 	'prop_keys_same_name_counterexample': 'NOT prop_keys_any_names_statement: on the code as it is, a subclass sharing __name__ with a base inherits the base\'s cached answer (latent; no tranp node class does; real code agrees with the model on such synthetic tables)',
@@ -1931,6 +2012,13 @@ def guarded_search(name: str, fn: Any) -> SearchResult:
 
 
 def run(ctx: Ctx) -> int:
+	translate_ok, translate_msg = True, ''
+	with ctx.timed('translate'):
+		try:
+			from translate import gen_procedure_state
+			ctx.generated_tables.extend(gen_procedure_state.generate())
+		except Exception as e:  # noqa: BLE001 - TranslateError: the tie between source and model is broken
+			translate_ok, translate_msg = False, f'{type(e).__name__}: {e}'
 	proof = common.prove(ctx, PROP, leanchecker=ctx.thorough)
 	with ctx.timed('search_prop_keys_history'):
 		# fresh processes; also yields the real class table and the real prop_keys() answers for the propkeys-real stream
@@ -1955,7 +2043,8 @@ def run(ctx: Ctx) -> int:
 	with ctx.timed('correspondence'):
 		streams = [guarded_stream('proc-corpus', lambda: stream_corpus(ctx)), guarded_stream('proc-synth', lambda: stream_synth(ctx, False)),
 			guarded_stream('proc-malformed', lambda: stream_synth(ctx, True)), guarded_stream('proc-real', _real), guarded_stream('proc-generated', _gen),
-			guarded_stream('propkeys-synth', lambda: stream_propkeys_synth(ctx)), guarded_stream('propkeys-real', _pk)]
+			guarded_stream('propkeys-synth', lambda: stream_propkeys_synth(ctx)), guarded_stream('propkeys-real', _pk),
+			guarded_stream('proc-history', lambda: stream_history(ctx))]
 	with ctx.timed('search'):
 		with ctx.timed('search_identity'):
 			s1 = guarded_search('identity', lambda: search_identity(ctx, real_descs, gen_descs))
@@ -1965,6 +2054,7 @@ def run(ctx: Ctx) -> int:
 			s4 = guarded_search('reparse', lambda: search_reparse(ctx))
 		searches = [s1, s2, s3, s4, guarded_search('nested-catch', lambda: search_nested_catch(ctx))]
 	return common.finish(ctx, proof, streams, searches,
+		translate_ok=translate_ok, translate_msg=translate_msg,
 		statements=STATEMENTS,
 		partial={
 			'proved': 'event alignment, single/list distinction, order, no leak between siblings, exactly one final result, stacks restored, nested runs isolated — for every tree satisfying WF and every handler program that does not catch nested failures',
@@ -1977,6 +2067,7 @@ def run(ctx: Ctx) -> int:
 			'KeyConsistent (hypothesis of wf_necessary): getattr(node, key) is a function of the key',
 			'NamesDistinctOnMro (hypothesis of prop_keys_history_independent): checked on the real class table in every fresh process',
 			'handlers touch the procedure only through exec (stacks are name-mangled private state)',
+			'no handler takes a `next` parameter (middleware chaining not modelled; checked by the translator over every on_* function of rogw/tranp)',
 			'Python recursion limit is not reached (model: nesting budget)',
 		],
 		trusted=['the 2.6k lines of node definitions enter as exported trees, not as model'])
